@@ -244,11 +244,17 @@ class Ctx:
             raise ToolTrouble("driver %s %s exited %d without a verdict:\n%s" % (pkg, run, code, tail))
         return results, wd, code
 
-    def take(self, results, name):
+    def take(self, results, name, only=None, drop=None):
+        """Turn a driver's findings into violations of the property being checked. A driver shared by two properties reports
+        findings about either; `only` / `drop` (substrings of the finding's text) keep each with the property it is about."""
         if name not in results:
             raise ToolTrouble("driver did not report result %r (dead driver)" % name)
         r = results[name]
         for v in (r.get("violations") or []):
+            if only is not None and not any(x in v["what"] for x in only):
+                continue
+            if drop is not None and any(x in v["what"] for x in drop):
+                continue
             self.violation(v["key"], v["what"], v.get("replay"))
         return r
 
